@@ -396,7 +396,9 @@ fn out_dir() -> String {
 }
 
 pub fn variant_name() -> &'static str {
-	if cfg!(feature = "aws_be") {
+	if cfg!(feature = "both_be") {
+		"both"
+	} else if cfg!(feature = "aws_be") {
 		"aws"
 	} else if cfg!(feature = "nocrypto_be") {
 		"nocrypto"
